@@ -150,6 +150,7 @@ def _table_bitinfo(tab, ebits, ibits):
     if r is not None:
         return r
     n = len(tab)
+    ibits = min(ibits, max(1, (n - 1).bit_length()))  # higher index bits are zero (bounds-checked access)
     out = []
     for ob in range(ebits):
         col = [(tab[i] >> ob) & 1 for i in range(n)]
@@ -862,3 +863,224 @@ def show(t, depth=0):
     if t.op == "not":
         return "!%s" % show(t.args[0], depth + 1)
     return "%s(%s)" % (t.op, ", ".join(show(a, depth + 1) for a in t.args))
+
+
+# ---------------------------------------------------------------- finite-domain equivalence of extracted terms
+# Two closed-form terms (never rustzx code) are compared by tabulating both over the input bits their
+# bit-provenance view says they may depend on.  Per output bit the support is usually small (<= 18 bits).
+
+try:
+    import numpy as _np
+except Exception:  # pragma: no cover
+    _np = None
+
+EQUIV_MAX_BITS = 18
+
+
+def _ev(t, env, memo):
+    r = memo.get(t)
+    if r is not None:
+        return r
+    op = t.op
+    m = mask(t.bits)
+    if op == "k":
+        r = t.args[0]
+    elif op == "sym":
+        r = env[t.args[0]]
+    else:
+        a = [(_ev(x, env, memo) if isinstance(x, T) else x) for x in t.args]
+        if op == "add":
+            r = (a[0] + a[1]) & m
+        elif op == "sub":
+            r = (a[0] - a[1]) & m
+        elif op == "mul":
+            r = (a[0] * a[1]) & m
+        elif op == "and":
+            r = a[0] & a[1]
+        elif op == "or":
+            r = a[0] | a[1]
+        elif op == "xor":
+            r = a[0] ^ a[1]
+        elif op == "not":
+            r = (~a[0]) & m
+        elif op == "shl":
+            r = _shift(a[0], a[1], t.bits, "shl") & m
+        elif op == "lshr":
+            r = _shift(a[0], a[1], t.bits, "lshr")
+        elif op == "ashr":
+            r = _shift(_sx(a[0], t.args[0].bits, 64), a[1], t.bits, "ashr") & m
+        elif op == "zext":
+            r = a[0]
+        elif op == "sext":
+            r = _sx(a[0], t.args[0].bits, t.bits) & m
+        elif op == "trunc":
+            r = a[0] & m
+        elif op in ("eq", "ne", "ult", "ule"):
+            x, y = a
+            if op == "eq":
+                r = x == y
+            elif op == "ne":
+                r = x != y
+            elif op == "ult":
+                r = x < y
+            else:
+                r = x <= y
+            r = _asint(r)
+        elif op in ("slt", "sle"):
+            b = t.args[0].bits
+            x, y = _tosigned(a[0], b), _tosigned(a[1], b)
+            r = _asint(x < y if op == "slt" else x <= y)
+        elif op == "ite":
+            if _np is not None and isinstance(a[0], _np.ndarray):
+                r = _np.where(a[0] != 0, a[1], a[2])
+            elif _np is not None and (isinstance(a[1], _np.ndarray) or isinstance(a[2], _np.ndarray)):
+                r = a[1] if a[0] else a[2]
+            else:
+                r = a[1] if a[0] else a[2]
+        elif op == "select":
+            tab = t.args[0]
+            if _np is not None and isinstance(a[1], _np.ndarray):
+                arr = _np.array(tab, dtype=_np.uint64)
+                r = arr[_np.minimum(a[1], len(tab) - 1).astype(_np.int64)]
+            else:
+                r = tab[min(int(a[1]), len(tab) - 1)]
+        elif op == "udiv":
+            r = a[0] // _nz(a[1])
+        elif op == "urem":
+            r = a[0] % _nz(a[1])
+        elif op in ("uaddo", "usubo", "umulo"):
+            b = t.args[0].bits
+            if op == "uaddo":
+                r = _asint((a[0] + a[1]) > mask(b))
+            elif op == "usubo":
+                r = _asint(a[0] < a[1])
+            else:
+                r = _asint((a[0] * a[1]) > mask(b))
+        else:
+            raise NotEvaluable(op)
+    memo[t] = r
+    return r
+
+
+class NotEvaluable(Exception):
+    pass
+
+
+def _nz(x):
+    if _np is not None and isinstance(x, _np.ndarray):
+        return _np.where(x == 0, 1, x)
+    return x or 1
+
+
+def _asint(r):
+    if _np is not None and isinstance(r, _np.ndarray):
+        return r.astype(_np.uint64)
+    return 1 if r else 0
+
+
+def _sx(x, frm, to):
+    sign = (x >> (frm - 1)) & 1
+    ext = mask(to) ^ mask(frm)
+    return x | (sign * ext)
+
+
+def _tosigned(x, bits):
+    if _np is not None and isinstance(x, _np.ndarray):
+        return _sx(x, bits, 64).astype(_np.int64)
+    return to_signed(x, bits)
+
+
+def _shift(x, n, bits, kind):
+    if _np is not None and (isinstance(x, _np.ndarray) or isinstance(n, _np.ndarray)):
+        n2 = _np.minimum(n, 63) if isinstance(n, _np.ndarray) else min(n, 63)
+        if kind == "shl":
+            r = x << n2
+        elif kind == "lshr":
+            r = x >> n2
+        else:
+            r = (x.astype(_np.int64) >> n2).astype(_np.uint64) if isinstance(x, _np.ndarray) else (to_signed(x, 64) >> n2) & mask(64)
+        return _np.where(n >= bits, 0, r) if kind != "ashr" else r
+    if n >= bits and kind != "ashr":
+        return 0
+    if kind == "shl":
+        return x << n
+    if kind == "lshr":
+        return x >> n
+    return (to_signed(x, 64) >> min(n, 63)) & mask(64)
+
+
+def evaluate(t, env):
+    """concrete value of a term under env: symbol name -> int"""
+    return _ev(t, env, {})
+
+
+def _assignments(support):
+    """vectorised environments enumerating every assignment of the (sym, bit) pairs in support"""
+    support = sorted(support)
+    n = len(support)
+    rows = 1 << n
+    envs = {}
+    if _np is not None:
+        idx = _np.arange(rows, dtype=_np.uint64)
+        for k, (s, j) in enumerate(support):
+            v = ((idx >> _np.uint64(k)) & _np.uint64(1)) << _np.uint64(j)
+            envs[s] = envs[s] | v if s in envs else v
+        return envs, rows
+    return None, rows
+
+
+def equiv(a, b, max_bits=EQUIV_MAX_BITS):
+    """True / False / None(undecided).  On False, equiv.witness holds a distinguishing assignment."""
+    equiv.witness = None
+    if a is b:
+        return True
+    if a.bits != b.bits:
+        return False
+    if cmp("eq", a, b) is TRUE:
+        return True
+    va, vb = bv(a), bv(b)
+    all_syms = syms(a) | syms(b)
+    for i in range(a.bits):
+        xa, xb = va[i], vb[i]
+        if xa == xb and not (isinstance(xa, tuple) and xa[0] == "d"):
+            continue
+        sup = _dep_of(xa) | _dep_of(xb)
+        if any(s.startswith("?") for (s, _) in sup):
+            return None
+        if len(sup) > max_bits:
+            return None
+        try:
+            r = _equiv_bit(a, b, i, sup, all_syms)
+        except NotEvaluable:
+            return None
+        if r is not True:
+            return r
+    return True
+
+
+def _equiv_bit(a, b, i, sup, all_syms):
+    if _np is not None:
+        envs, rows = _assignments(sup)
+        zero = _np.zeros(rows, dtype=_np.uint64)
+        env = dict((s, envs.get(s, zero)) for s in all_syms)
+        ra = (_ev(a, env, {}) >> i) & 1
+        rb = (_ev(b, env, {}) >> i) & 1
+        ne = _np.nonzero(_np.asarray(ra != rb))[0] if isinstance(ra, _np.ndarray) or isinstance(rb, _np.ndarray) else ([] if ra == rb else [0])
+        if len(ne):
+            k = int(ne[0])
+            equiv.witness = dict((s, int(v[k]) if isinstance(v, _np.ndarray) else int(v)) for s, v in env.items())
+            equiv.witness["_bit"] = i
+            return False
+        return True
+    sup = sorted(sup)
+    for k in range(1 << len(sup)):
+        env = dict((s, 0) for s in all_syms)
+        for n_, (s, j) in enumerate(sup):
+            env[s] |= ((k >> n_) & 1) << j
+        if (evaluate(a, env) >> i) & 1 != (evaluate(b, env) >> i) & 1:
+            equiv.witness = dict(env, _bit=i)
+            return False
+    return True
+
+
+equiv.witness = None
